@@ -23,6 +23,15 @@ CLAIMED = {
                      "(path-universal dataflow); delimiter choice has a single source. Round-trip equality is not decided.",
                 note=TB + "; ICU u_fprintf/u_fputc return conventions (count written / character written)",
                 tech="table agreement + emission/accounting typestate dataflow + who-may-call on the call graph"),
+    "C03": dict(level="other", ref="5 C03",
+                text="Structural form of the error-callback contract, path-universal over all 50 callback sites of the parser and up the "
+                     "call chain: a non-zero callback result (or failing callee result) reaches a return of that very value with no "
+                     "further scanning, storing or callback; positive codes originate only from resource/internal conditions; every "
+                     "input-defect code a library call may return is routed to the callback or frozen in a cannot-occur table with "
+                     "its reason. Termination, memory safety on arbitrary bytes and post-abort consistency are not decided.",
+                note=TB + "; flow-insensitive may-return-code summaries (over-approximate); the cannot-occur table was triaged by reading "
+                     "each call site; 5 genuine defects are recorded as known findings",
+                tech="verdict-propagation typestate dataflow + may-return-code summaries over the call graph"),
     "C04": dict(level="other", ref="5 C04",
                 text="The schema and statement layer the data model rests on: SQLite's own parser run on the embedded DDL and on all "
                      "embedded statements (compiling program text in an empty in-memory database, not running cif_api) yields keys, "
